@@ -264,22 +264,52 @@ def execute(c):
 
 
 class LogStream(io.StringIO):
-    """a text stream that logs what the reader does with it (line hand-outs, end of stream, close)"""
+    """a text stream that logs what the reader does with it: which lines it has been handed (however it asks for them: iteration, readline,
+    readlines, read), when it was told that the stream is exhausted, and close()"""
 
     def __init__(self, text, events):
         super().__init__(text)
         self._events = events
         self._k = 0
+        self._starts = [0]
+        for i, ch in enumerate(text):
+            if ch == "\n" and i + 1 < len(text):
+                self._starts.append(i + 1)
+        self._len = len(text)
+        self._eof = False
+
+    def _sync(self, exhausted):
+        pos = self.tell()
+        while self._k < len(self._starts) and self._starts[self._k] < pos:
+            self._k += 1
+            self._events.append(["next", self._k])
+        if exhausted and not self._eof:
+            self._eof = True
+            self._events.append(["eof"])
 
     def __next__(self):
         try:
             line = super().__next__()
         except StopIteration:
-            self._events.append(["eof"])
+            self._sync(True)
             raise
-        self._k += 1
-        self._events.append(["next", self._k])
+        self._sync(False)
         return line
+
+    def readline(self, *a):
+        line = super().readline(*a)
+        self._sync(line == "")
+        return line
+
+    def readlines(self, *a):
+        lines = super().readlines(*a)
+        self._sync(self.tell() >= self._len)
+        return lines
+
+    def read(self, *a):
+        data = super().read(*a)
+        self._sync(self.tell() >= self._len and (not a or a[0] is None or a[0] < 0 or data == ""))
+        return data
 
     def close(self):
         self._events.append(["close"])
